@@ -204,6 +204,15 @@ def case_decompress_inplace(ctx, fault):
         ctx.oblige("decompress_returns_complete_bin", str(out) == BASE + ".bin" and complete)
         if not keep:
             ctx.oblige("reader_points_to_bin", str(sr.file_bin) == BASE + ".bin")
+            # the object modified in place keeps working: re-opened, it reads the same recording
+            ctx.call("reopen_same_object", sr.open)
+            ctx.oblige("same_object_reopened_has_the_recordings_shape", tuple(sr.shape) == (NS, NC), detail={"shape": str(sr.shape)})
+            if tuple(sr.shape) == (NS, NC):
+                p = ctx.int("p", 0, NS - 1)
+                fresh = ctx.call("open_fresh", spikeglx.Reader, FakePath(BASE + ".bin"))
+                r1 = ctx.call("read", lambda: sr[p, :])
+                r2 = ctx.call("read", lambda: fresh[p, :])
+                ctx.oblige("same_object_reads_what_a_fresh_reader_reads", all_([core.eq(r1[j], r2[j]) for j in range(NC)]))
 
 
 def case_decompress_inplace_retry(ctx, fault):
@@ -446,6 +455,11 @@ gone = not (d / 'x.imec0.ap.cbin').exists() or not (d / 'x.imec0.ap.ch').exists(
 bad = []
 if gone and not complete: bad.append('compressed source removed before the replacement was complete')
 if raised is None and not complete: bad.append('no complete bin after normal return')
+if raised is None and not keep:
+    sr.open()
+    fresh = spikeglx.Reader(b)
+    if sr.shape != (ns, nc): bad.append(f'the reader object decompressed in place re-opens with shape {{sr.shape}} instead of {{(ns, nc)}}')
+    elif not np.array_equal(sr[:, :], fresh[:, :]): bad.append('the reader object decompressed in place reads other values than a fresh reader')
 print('raised', raised, bad)
 if bad: reproduced(str(bad))
 not_reproduced()
